@@ -35,6 +35,7 @@ func init() {
 		Thorough: []Scenario{
 			{Name: "C08/delivered-batch", Build: plain, Pkg: "internal", Test: "TestVerif_C08Batch", Params: "len=8", Shards: 8, BudgetS: 600},
 			{Name: "C08/delivered-once", Build: plain, Pkg: "internal", Test: "TestVerif_C08Once", Params: "len=6", Shards: 8, BudgetS: 600},
+			{Name: "C08/delivered-once-pool", Build: plain, Pkg: "internal", Test: "TestVerif_C08Once", Params: "len=8,pool=1", Shards: 16, BudgetS: 600},
 			sk("cap2", cap2, "2x2", 600), icb("cap2", cap2, "2x2", 1, "4", 600), sk("cap2", cap2, "2x3", 600), sk("cap2", cap2, "2x4", 840), sk("cap2", cap2, "3x2", 840), sk("cap2", cap2, "3-322", 840),
 			sk("cap4", cap4, "2x4", 600), sk("cap4", cap4, "2x5", 840), sk("cap4", cap4, "3-221", 600), sk("cap4", cap4, "3x2", 840),
 			icb("cap16", sched, "late-free", 16, "4", 840),
